@@ -323,3 +323,40 @@ func vpC02_O4() {
 	proofA.RangeProofs[ra] = proofB.RangeProofs[ra]
 	vpAssert("a range sub-proof replaced by that of another session is rejected", !proofA.Verify(pk, ctxA, nonceA, false))
 }
+
+func init() {
+	vpHarnesses["vpC03_O3"] = vpC03_O3
+}
+
+// C03-O3: colluding holders with secrets m and -m. A shows a credential (secret m), B makes
+// an issuance commitment with the secret -m and the negated secret-key randomiser, both
+// under the joint challenge: the two secret-key responses are each other's negatives - equal
+// in magnitude, different as integers. Each proof is valid on its own; as a linked list
+// (no labels, or one label) it must be rejected: linking is equality of the responses.
+func vpC03_O3() {
+	pk, sk := vpKeys(0, 3, 1024, false)
+	pk2, _ := vpKeys(1, 3, 1024, false)
+	m := vpBigBits("m", 255)
+	vpAssume(m.Sign() > 0)
+	ctx, nonce := vpBigBits("ctx", 256), vpBigBits("nonce", 80)
+	bA := vpBuilder(0, 0, pk, sk, m, ctx)
+	bB, err := NewCredentialBuilder(pk2, ctx, new(big.Int).Neg(m), vpBigBits("b1n2", 80), nil, nil)
+	vpAssume(err == nil)
+	r := vpBigBits("skRandomizer", 592)
+	vpAssume(r.Sign() > 0)
+	cA, err := bA.Commit(map[string]*big.Int{"secretkey": r})
+	vpAssume(err == nil)
+	cB, err := bB.Commit(map[string]*big.Int{"secretkey": new(big.Int).Neg(r)})
+	vpAssume(err == nil)
+	c := createChallenge(ctx, nonce, append(append([]*big.Int{}, cA...), cB...), false)
+	vpAssume(c.Sign() != 0)
+	pl := ProofList{bA.CreateProof(c), bB.CreateProof(c)}
+	keys := []*gabikeys.PublicKey{pk, pk2}
+	vpAssert("the two responses are each other's negatives", new(big.Int).Add(pl[0].SecretKeyResponse(), pl[1].SecretKeyResponse()).Sign() == 0)
+	vpAssert("under different labels the list of the colluding holders verifies", pl.Verify(keys, ctx, nonce, false, []string{"a", "b"}))
+	var labels []string
+	if vpBool("oneLabel") {
+		labels = []string{"ks", "ks"}
+	}
+	vpAssert("secrets m and -m with negated randomisers are not linked", !pl.Verify(keys, ctx, nonce, false, labels))
+}
